@@ -111,8 +111,13 @@ def draw_group(seed):
     # one recursion limit for ALL processes of the group (the property does not promise equal output under different limits,
     # but under one limit deep methods must fail, or succeed, the same way whatever happened earlier in the process)
     rec_limit = r.choice([None, None, None, 400, 220, 90, 70, 60])
-    cfgs = [{"hashseed": 0, "layout": 0, "gc": None, "prewarm": False, "xref": True, "recursion_limit": rec_limit}]
-    hist = [canon]
+    # a third of the groups rename one class in the middle of every history (at a different point in each process): the texts
+    # observed after the rename must not depend on what was decompiled before it
+    rename = None
+    if tl and r.random() < 0.33:
+        rename = ["rn", r.choice(tl)[0], r.choice(["Lrenamed/Cls;", "Lr;", "La/b/c/Renamed$1;"])]
+    cfgs = [{"hashseed": 0, "layout": 0, "gc": None, "prewarm": False, "xref": rename is None, "recursion_limit": rec_limit}]
+    hist = [canon if rename is None else canon + [rename] + [list(o) for o in canon]]
     hr = core.rng(seed, "history")
     lr = core.rng(seed, "layout")
     for j in range(r.choice([3, 4, 5])):
@@ -137,6 +142,11 @@ def draw_group(seed):
             extra.append(o)
         if hr.random() < 0.3:
             extra = extra[len(extra) // 2:] + extra[:len(extra) // 2]
+        if rename is not None:
+            post = [list(o) for o in canon]
+            hr.shuffle(post)
+            pre = extra[:hr.choice([0, 0, 1, 2, len(extra) // 2, len(extra)])]
+            extra = pre + [rename] + post
         hist.append(extra)
     return {"seed": seed, "source": source, "sid": sid, "cfgs": cfgs, "hist": hist}
 
@@ -168,10 +178,10 @@ def _target_name(source, tgt):
     raw = load_raw(source)
     d = DEX(raw)
     c = list(d.get_classes())[tgt[1]]
-    if tgt[0] == "c":
-        return str(c.get_name())
+    if tgt[0] in "cC":
+        return str(c.get_name()) + (":after-rename" if tgt[0] == "C" else "")
     m = list(c.get_methods())[tgt[2]]
-    return "%s->%s%s" % (c.get_name(), m.get_name(), str(m.get_descriptor()).replace(" ", ""))
+    return "%s->%s%s" % (c.get_name(), m.get_name(), str(m.get_descriptor()).replace(" ", "")) + (":after-rename" if tgt[0] == "M" else "")
 
 
 def execute(group):
@@ -213,7 +223,7 @@ def execute(group):
         if group["source"]["kind"] == "file":
             sig = f"C22:{cls}:{group['sid']}:{_target_name(group['source'], tgt)}"
         else:
-            sig = f"C22:{cls}:generated"
+            sig = f"C22:{cls}:generated" + (":after-rename" if tgt[0] in "MC" else "")
         if sig not in problems:
             problems[sig] = {"msg": f"target {tgt} ({_target_name(group['source'], tgt)}) has {len(seen[tgt])} different texts: "
                                     f"process {ja} -> {ha}, process {jb} -> {hb}"
@@ -222,7 +232,9 @@ def execute(group):
     log.add("group", "variants", variants)
     return {"problems": [(s, p["msg"]) for s, p in sorted(problems.items())], "detail": problems,
             "digest": log.digest(), "probes": {"identity-hash-consulted": sum(hash_calls),
-                                               "targets-with-more-than-one-text": variants},
+                                               "targets-with-more-than-one-text": variants,
+                                               "groups-with-a-class-rename-in-mid-history": int(any(o[0] == "rn" for o in group["hist"][0])),
+                                               "targets-observed-after-the-rename": sum(1 for t in seen if t[0] in "MC")},
             "units": units, "nontrivial": all(h > 0 for h in hash_calls[1:]) and len(hash_calls) > 1,
             "log": log.events,
             "extra": {"processes": len(group["cfgs"]), "targets": len(seen), "sources": [group["sid"]]}}
@@ -256,17 +268,33 @@ def _pair_differs(source, cfg_a, ops_a, cfg_b, ops_b, tgt):
     return ha is not None and bool(hb) and (hb != {ha}), ha, sorted(hb)
 
 
+def _with_request(ops, op, tgt):
+    """ops, with the request for the target present in the right epoch (after the rename for targets 'M' / 'C')"""
+    if tgt[0] in "MC":
+        k = next((i for i, o in enumerate(ops) if o[0] == "rn"), None)
+        if k is None or op in ops[k + 1:]:
+            return ops
+        return ops + [op]
+    k = next((i for i, o in enumerate(ops) if o[0] == "rn"), len(ops))
+    if op in ops[:k]:
+        return ops
+    return ops[:k] + [op] + ops[k:]
+
+
 def minimise(case, sig):
     group, d = case["group"], case["detail"][sig]
     tgt = tuple(d["target"])
     source = group["source"]
     ja, jb = d["a"], d["b"]
     cfg_a, cfg_b = group["cfgs"][ja], group["cfgs"][jb]
-    op = ["ms", tgt[1], tgt[2]] if tgt[0] == "m" else ["cs", tgt[1]]
+    op = ["ms", tgt[1], tgt[2]] if tgt[0] in "mM" else ["cs", tgt[1]]
     ops_a, ops_b = group["hist"][ja], group["hist"][jb]
     tests = 0
+    alone = [op]
+    if tgt[0] in "MC":
+        alone = [o for o in ops_b if o[0] == "rn"][:1] + [op]      # the request alone, after the rename
     # 1. shortest histories: the single request alone
-    for cand_a, cand_b in (([op], [op]), ([op], ops_b), (ops_a, [op])):
+    for cand_a, cand_b in ((alone, alone), (alone, ops_b), (ops_a, alone)):
         tests += 1
         ok, _, _ = _pair_differs(source, cfg_a, cand_a, cfg_b, cand_b, tgt)
         if ok:
@@ -277,19 +305,16 @@ def minimise(case, sig):
         def fails(sub):
             nonlocal tests
             tests += 1
-            if op not in sub:
-                sub = sub + [op]
+            sub = _with_request(sub, op, tgt)
             return _pair_differs(source, cfg_a, ops_a, cfg_b, sub, tgt)[0]
-        ops_b = core.ddmin(ops_b, fails, max_tests=40)
-        if op not in ops_b:
-            ops_b = ops_b + [op]
+        ops_b = _with_request(core.ddmin(ops_b, fails, max_tests=40), op, tgt)
     # 3. generated sources: keep only the target's class
     if source["kind"] == "gen" and len(source["model"]["classes"]) > 1 and all(o[1] == tgt[1] for o in ops_a + ops_b):
         m2 = {"classes": [source["model"]["classes"][tgt[1]]], "strings_extra": []}
         s2 = {"kind": "gen", "model": m2}
         t2 = (tgt[0], 0, tgt[2])
         oa = [[o[0], 0] + o[2:] for o in ops_a]
-        ob = [[o[0], 0] + o[2:] for o in ops_b]
+        ob = [[o[0], 0] + o[2:] for o in ops_b]      # (a rename of another class blocks this step through the all() above)
         tests += 1
         if _pair_differs(s2, cfg_a, oa, cfg_b, ob, t2)[0]:
             source, tgt, ops_a, ops_b = s2, t2, oa, ob
